@@ -352,7 +352,7 @@ func c10SSH(r *vlib.Run, g *c10Gen, file string) {
 	key := clientKey()
 	canaryKey, _ := vlib.GenKey("ed25519")
 	spec := &vlib.ServerSpec{
-		Name:     "c10",
+		Name: "c10",
 		Server: map[string]interface{}{"MaxConnections": 200, "MaxConcurrentCats": 8, "MaxConcurrentTails": 50,
 			"Permissions": map[string]interface{}{"Default": c10Permissions}},
 		LogLevel: "error",
